@@ -202,6 +202,8 @@ def run(case):
     except Exception as ex:
         res['exc'] = type(ex).__name__
         res['exc_msg'] = str(ex)[:200]
+        import traceback
+        res['exc_tb'] = traceback.format_exc()[-700:]
         res['log'] = list(LOG)
         return res
     res['log'] = list(LOG)
